@@ -63,10 +63,11 @@ def _is_container_value(v):
 
 def _override_deepens(f, attr):
     """does copy override `f` re-copy the elements of attribute `attr` of the new object?"""
+    d_ = Defs(f.node)
     for n in walk_own(f.node):
-        if isinstance(n, ast.For) and attr in norm(n.iter):
+        if isinstance(n, ast.For) and attr in norm(expand(n.iter, d_)) and not n.orelse and not any(isinstance(x, (ast.Break, ast.If, ast.Continue, ast.Return)) for x in walk_own(n)):
             for s in walk_own(n):
-                if isinstance(s, ast.Assign) and isinstance(s.targets[0], ast.Subscript) and norm(s.targets[0].value).endswith("." + attr):
+                if isinstance(s, ast.Assign) and isinstance(s.targets[0], ast.Subscript) and norm(expand(s.targets[0].value, d_)).endswith("." + attr):
                     if isinstance(s.value, ast.Call) and isinstance(s.value.func, ast.Attribute) and s.value.func.attr == "copy":
                         return True
         if isinstance(n, ast.Assign) and isinstance(n.targets[0], ast.Attribute) and n.targets[0].attr == attr and not (isinstance(n.targets[0].value, ast.Name) and n.targets[0].value.id == "self"):
